@@ -927,6 +927,20 @@ impl<'a> Engine<'a> {
         self.step("fmt_probe", || format!("fmt probe {}", names[which]));
         self.fp_step(s, O_FMT, which as u32, 0);
         if !self.light { self.cx.rep.hit(&format!("fmt:{}:{}", names[which], fill_name(s.model.len(), N))); }
+        if self.rng.chance(1, 3) {
+            use std::fmt::Write as _;
+            let mut sink = crate::common::Bounded { left: self.rng.usize_below(24) };
+            let r = fault::catch(|| {
+                let m = s.fr.get();
+                let a = write!(sink, "{}", m).is_err();
+                let b = write!(sink, "{:?}", m).is_err();
+                (a, b)
+            });
+            if let Caught::Panic(msg) = r {
+                self.h.viol("C19", "failing-sink-panics", format!("formatting into a sink that returns Err panicked: {}", msg));
+            }
+            if !self.light { self.cx.rep.hit("fmt:after-failing-sink"); }
+        }
         let m = s.fr.get();
         let obs: Vec<(u32, u32)> = m.iter().map(|k| (k.class(), k.tag())).collect();
         match which {
